@@ -212,7 +212,9 @@ func poolObligations(c *Checker, pfx string) {
 			a := pm.a
 			chn, ln, cp := mkAtom(a+".Channels", intT), mkAtom(a+".Length", intT), mkAtom(a+".Capacity", intT)
 			okN, d := pm.newOK, pm.newWhy
-			if okN && !(eqInt(pm.newLen, specMul(chn, ln)) && eqInt(pm.newCap, specMul(chn, cp)) && pm.newCh != nil && eqInt(pm.newCh, chn)) {
+			adm := admissibleAllocator(chn, ln, cp)
+			same := func(got, want *Term) bool { return got != nil && (eqInt(got, want) || eqUnder(got, want, adm)) }
+			if okN && !(same(pm.newLen, specMul(chn, ln)) && same(pm.newCap, specMul(chn, cp)) && pm.newCh != nil && eqInt(pm.newCh, chn)) {
 				okN, d = false, fmt.Sprintf("New's buffer is not Alloc(argument allocator): len %s cap %s channels %s", pretty(canonOrNil(pm.newLen)), pretty(canonOrNil(pm.newCap)), pretty(canonOrNil(pm.newCh)))
 			}
 			pos := pm.newPos
@@ -395,7 +397,10 @@ func checkC12(c *Checker) {
 					if e.Kind == EStoreField {
 						nv, isS := e.Val.(SliceV)
 						own := strings.TrimPrefix(e.Obj.Name, "*") + hdrLayout.dataSuffix()
-						if !isS || nv.Stor == nil || !derivedFrom(nv.Stor, own) {
+						// storage made in this very call is nobody else's: moving a header to it (an Append that spells
+						// its growth out) cannot make two buffers share storage; what goes into it is C03's business
+						madeHere := isS && nv.Stor != nil && nv.Stor.Kind == SFresh
+						if !madeHere && (!isS || nv.Stor == nil || !derivedFrom(nv.Stor, own)) {
 							okV2, d2 = false, fmt.Sprintf("data of %s is replaced by a slice not derived from its own data: %s at %s", e.Obj.Name, valString(e.Val), c.effPos(e))
 						}
 					}
@@ -482,10 +487,40 @@ func checkC12(c *Checker) {
 						continue
 					}
 					f := positiveChannels(fn, e.Facts)
+					if f.impliesGE0(polyInt(-1)) {
+						continue // a path only a negative channel count takes
+					}
 					n := normInt(e.N)
 					lo, hi := normInt(e.Dst.Len), normInt(e.Dst.Cap)
+					// the slice whose capacity is set exists: 0 <= len <= cap, whatever terms describe them
+					f.add(Cond{Kind: CGE0, P: lo, Tag: "axiom"})
+					f.add(Cond{Kind: CGE0, P: hi.Sub(lo), Tag: "axiom"})
+					f.add(Cond{Kind: CGE0, P: hi, Tag: "axiom"})
 					if e.Note == "SetLen" {
 						lo = newPoly()
+					}
+					// a capacity computed by a policy helper is a conditional term: judge every feasible case
+					if e.Dst.Cap != nil && (!f.impliesGE0(n.Sub(lo)) || !f.impliesGE0(hi.Sub(n))) {
+						all, nc := true, 0
+						for _, cs := range casesOf(canon(e.Dst.Cap), f, 0) {
+							cf := simplifyFacts(cs.facts, cs.facts)
+							if cf.impliesGE0(polyInt(-1)) {
+								continue
+							}
+							n2 := normInt(simplifyUnder(canon(e.N), cf))
+							lo2 := normInt(simplifyUnder(canon(e.Dst.Len), cf))
+							if e.Note == "SetLen" {
+								lo2 = newPoly()
+							}
+							hi2 := normInt(simplifyUnder(cs.val, cf))
+							nc++
+							if !cf.impliesGE0(n2.Sub(lo2)) || !cf.impliesGE0(hi2.Sub(n2)) {
+								all = false
+							}
+						}
+						if all && nc >= 1 {
+							continue
+						}
 					}
 					if !f.impliesGE0(n.Sub(lo)) {
 						ok, d, p = false, fmt.Sprintf("%s(%s) can be below the length %s: reflect panics (path: %s)", e.Note, pretty(canon(e.N)), pretty(canon(e.Dst.Len)), factsBrief(e.Facts)), c.effPos(e)
@@ -763,6 +798,9 @@ func (c *Checker) poolModel() *poolModel {
 			if e.Kind == EUndecided {
 				m.newOK, m.newWhy = false, "New: "+e.Note
 			}
+		}
+		if no.Kind == OPanic && c.inadmissibleAllocatorPath(no) {
+			continue // a validation that only an inadmissible allocator trips (see C13-A1)
 		}
 		if no.Kind != ORet {
 			m.newOK, m.newWhy = false, "New has a non-returning path"
